@@ -217,30 +217,43 @@ def r5_2(repo: Repo) -> RuleResult:
 
 
 def r5_3(repo: Repo) -> RuleResult:
+    """The bound comparisons are located by their bound operand (a min_* / max_* parameter, or the (k+1)-th
+    largest frequency for the top-k step); the other names are free."""
     rr = RuleResult("R5.3", "bound comparisons are strict with the right polarity (a token exactly on the bound is kept)", floor=5)
     f = repo.func(PP, "prune_token_dictionary")
-    want = {
-        ("token_frequencies", "min_frequency"): ast.Lt,
-        ("token_frequencies", "max_frequency"): ast.Gt,
-        ("token_doc_frequencies", "min_document_frequency"): ast.Lt,
-        ("token_doc_frequencies", "max_document_frequency"): ast.Gt,
-        ("new_token_frequency", "freq"): ast.Gt,
-    }
+    bounds = {"min_frequency": "min", "max_frequency": "max", "min_document_frequency": "min", "max_document_frequency": "max"}
+    # the top-k threshold: a local defined as np.sort(<freqs>)[-max_unique_tokens - 1]
+    for n in walk_no_nested(f.node):
+        if isinstance(n, ast.Assign) and isinstance(n.targets[0], ast.Name) and isinstance(n.value, ast.Subscript) \
+                and "max_unique_tokens" in norm(n.value.slice) and "sort" in norm(n.value.value):
+            bounds[n.targets[0].id] = "topk"
     found = {}
     for n in walk_no_nested(f.node):
-        if isinstance(n, ast.Compare) and len(n.ops) == 1:
-            k = (norm(n.left), norm(n.comparators[0]))
-            if k in want:
-                found[k] = n
-    for k, op in want.items():
-        n = found.get(k)
-        if n is None:
-            raise AnalysisError("R5.3: comparison `%s ? %s` not found in prune_token_dictionary (unrecognised form)" % k)
-        construct = "%s vs %s" % k
-        if isinstance(n.ops[0], op):
-            rr.ok(f, construct, "`%s`" % norm(n), n.lineno)
-        else:
-            rr.bad(f, construct, "`%s`: a token sitting exactly on the bound is %s" % (norm(n), "pruned" if k[1] != "freq" else "kept although it ties with a dropped one"), n.lineno)
+        if isinstance(n, ast.Compare) and len(n.ops) == 1 and not isinstance(n.ops[0], (ast.Is, ast.IsNot, ast.In, ast.NotIn, ast.Eq, ast.NotEq)):
+            l, r = norm(n.left), norm(n.comparators[0])
+            if r in bounds and l not in bounds:
+                found.setdefault(r, []).append((n, n.ops[0], False))
+            elif l in bounds and r not in bounds and not isinstance(n.comparators[0], ast.Constant):
+                found.setdefault(l, []).append((n, n.ops[0], True))  # bound on the left: operator is mirrored
+    if "topk" not in bounds.values():
+        raise AnalysisError("R5.3: top-k threshold `np.sort(...)[-max_unique_tokens - 1]` not found in prune_token_dictionary")
+    for b, kind in bounds.items():
+        sites = [x for x in found.get(b, []) if "len(" not in norm(x[0])]
+        if not sites:
+            raise AnalysisError("R5.3: no comparison against `%s` found in prune_token_dictionary (unrecognised form)" % b)
+        for n, op, mirrored in sites:
+            mirror = {ast.Lt: ast.Gt, ast.Gt: ast.Lt, ast.LtE: ast.GtE, ast.GtE: ast.LtE}
+            eff = mirror[type(op)] if mirrored else type(op)
+            # prune-set form: value < min / value > max ; top-k keep form: value > threshold
+            want = {"min": ast.Lt, "max": ast.Gt, "topk": ast.Gt}[kind]
+            construct = "comparison with %s" % (b if kind != "topk" else "the top-k threshold")
+            if eff is want:
+                rr.ok(f, construct, "`%s`" % norm(n), n.lineno)
+            elif eff in (ast.Lt, ast.Gt) :
+                raise AnalysisError("R5.3: `%s` is in keep-form / unrecognised polarity; cannot decide" % norm(n))
+            else:
+                rr.bad(f, construct, "`%s`: a token sitting exactly on the bound is %s" % (
+                    norm(n), "pruned" if kind != "topk" else "kept although it ties with a dropped one"), n.lineno)
     return rr
 
 
